@@ -1,5 +1,4 @@
 SPECIFICATION Spec
 CONSTANT WINT = 32
 CONSTANT StdWidths = {8, 16, 32, 64, 128}
-POSTCONDITION AllConsumed
 CHECK_DEADLOCK FALSE
